@@ -114,6 +114,19 @@ def linked_member_cases(self, rng, clauses):
     return out
 
 
+def u8_digest_cases(self, rng, clauses):
+    """A one-piece v1 payload whose piece hash happens to be well-formed UTF-8 (found by search: about one content in
+    140 000): the metafile decoder returns such a string as text."""
+    out = []
+    for src in ("own", "ref"):
+        for route in ("lib", "cli"):
+            for mode in ("root", "parent"):
+                c = self.mk(rng, B, 1, src, 0, clauses, tree=("S1", (14,)), route=route, path_mode=mode)
+                c["tree"]["files"][0]["mode"] = "u8sha1"
+                out.append(c)
+    return out
+
+
 def twin_member_cases(self, rng, clauses):
     """Members whose names differ only in letter case or normalisation form AND hold the same bytes; one of them is
     removed (or truncated): the twin that is still there is not the missing member."""
@@ -404,7 +417,7 @@ class C16(RecheckProp):
                 c["damage"] = [d for d in c["damage"] if d["kind"] not in ("remove", "rmdir", "dangling")]
             out.append(c)
         out += periodic_cases(self, rng, cl) + missing_dir_cases(self, rng, cl) + linked_member_cases(self, rng, cl)
-        out += foreign_plen_cases(self, rng, cl, (0, 2)) + twin_member_cases(self, rng, cl)
+        out += foreign_plen_cases(self, rng, cl, (0, 2)) + twin_member_cases(self, rng, cl) + u8_digest_cases(self, rng, cl)
         out += big_piece_cases(self, rng, cl, [[], [{"file": 0, "kind": "flip", "arg": 2 ** 20 + 7}],
                                                [{"file": 0, "kind": "trunc", "arg": 2 ** 21}]])
         # payload members reached through symbolic links (inside the root / leading outside it), intact and damaged
@@ -570,6 +583,7 @@ class C05(RecheckProp):
             g += 1
             for mode in ("root", "parent"):
                 out.append(dict(c, path_mode=mode, group="g%d" % g))
+        out += u8_digest_cases(self, rng, ["C05.hundred"])
         out += self.findroot_cases()
         lim = 20000 if tier == "thorough" else 1000
         sc = scaled_universe("MC_FeedChecker_quick.cfg", 1, ["C05.hundred"], rng, lim) + \
